@@ -108,7 +108,7 @@ def _one_cash_write(ctx, rule, qn, p, attr, expected_delta, what):
     ok = d is not None and same(p, d, expected_delta)
     if not ok and d is not None:
         from ..lib import unread_atoms
-        ur = unread_atoms(ctx.M, d, expected_delta)
+        ur = unread_atoms(ctx.M, d, expected_delta, fn=ctx.fn(qn))
         if ur:
             ctx.undecided(rule, '%s: %s changes by %s on path [%s]' % (qn, attr, what, cond_str(p)), w.site,
                           'delta is %s: %s is a stored or computed figure this rule does not relate to the expected operands' % (fmt(d)[:120], fmt(ur[0])[:60]))
@@ -312,7 +312,7 @@ def s5_history(ctx):
                 ok = got is not None and any(same(p, got, a) for a in alts)
                 if not ok and got is not None:
                     from ..lib import unread_atoms
-                    ur = unread_atoms(ctx.M, got, list(alts))
+                    ur = unread_atoms(ctx.M, got, list(alts), fn=ctx.fn(qn))
                     if ur:
                         ctx.undecided('C01.S5', '%s: history %s = %s on path [%s]' % (qn, fld, fmt(alts[0]), cond_str(p)), e.site,
                                       'recorded %s: %s is not related by this rule to the expected operands' % (fmt(got)[:100], fmt(ur[0])[:60]))
